@@ -533,6 +533,18 @@ func check(c Case) (out ev.Outcome) {
 		if o.Valid {
 			return ev.Failf("defaults outside their schema are not reported as errors: %s (continue-on-errors=%v)", describe(badDefaults), c.Continue)
 		}
+		// the examples are judged whatever the defaults are like, in either mode: the statement makes no exception.
+		// When stopping early the library never reaches the values if an earlier pass reports an error; the base
+		// document passes those, and decorations only trip them in the region of the recorded pre-check finding
+		// (a value object with a member named items), so outside it the errors come from the defaults themselves.
+		reachesValues := c.Continue
+		if !reachesValues {
+			doc, err := refmodel.Decode([]byte(c.Doc))
+			reachesValues = err == nil && !hasItemsInValue(doc)
+		}
+		if reachesValues && len(badExamples) > 0 && len(newW) == 0 {
+			return ev.Failf("examples outside their schema raise no warning (beside defaults reported as errors, continue-on-errors=%v): %s", c.Continue, describe(badExamples))
+		}
 	default:
 		if !o.Valid {
 			if id, ok := ev.KnownOpen("precheck_on_value_of_member_named_default"); ok && precheckRegion(c, o.Errors) {
